@@ -254,6 +254,19 @@ def _aligned_ids(ctx, module, expr) -> Set[str]:
     return out
 
 
+def _collection_source(ctx, module, coefs, step, func):
+    """Text of the aligned collection C when the coefficient data range over Σelem(C)."""
+    if coefs is None:
+        # raw allocation: look at the values stored later is out of reach here; use the exponents source
+        return None
+    for node in walk_shared(coefs):
+        if isinstance(node, ast.Attribute) and node.attr in ("values", "coefficients") and is_S(node.value, "elem"):
+            src = node.value.args[0]
+            if isinstance(src, ast.Call) and not is_S(src) and ctx.dotted(module, src.func) in ALIGN_FUNCS:
+                return _txt(src)
+    return None
+
+
 def run_dtype(ctx) -> RuleResult:
     result = RuleResult(
         "R-DTYPE",
@@ -298,6 +311,20 @@ def run_dtype(ctx) -> RuleResult:
                                 if isinstance(node, ast.Attribute) and node.attr == "exponents":
                                     ops |= _operand_ids(ctx, module, node.value)
                             ops = {o for o in ops if o not in ("out",)}
+                        coll = _collection_source(ctx, module, coefs if "coefficients" in params else None, step, func)
+                        if coll is not None:
+                            n += 1
+                            dtext = _txt(dtype)
+                            fixed = f"{coll}[" in dtext and f"Σelem({coll})" not in dtext
+                            result.ob(f"{module.name}.{qual}: dtype of the joined result depends on every element of the "
+                                      f"operand collection", not fixed, module.loc(step.orig), dtext[:100])
+                            if fixed:
+                                result.add(Finding(
+                                    "R-DTYPE", module, qual, call,
+                                    f"columns of all elements of '{coll[:60]}' are combined but dtype= ({dtext[:80]}) is taken "
+                                    f"from one fixed element: values of the other operands are cast down to its dtype",
+                                    derivation=describe_path(path)))
+                            continue
                         if len(ops) < 2:
                             continue
                         n += 1
